@@ -236,6 +236,60 @@ def rule_idx(ctx):
                         r.violation('%s:%s:forwarded' % (root.path, kind2), t['s'], m.path,
                                     'a chunk is delivered with the child\'s own location object (its %s index is in the child\'s numbering) but '
                                     'this stream renumbers %s indices: the index is wrong or was never announced' % (kind2, kind2))
+        # SIDES: tables handed together to one helper call must belong to the same child stream (all filled by the outer
+        # announcement closures, or all by the inner ones)
+        side_of = {}
+        for m in members:
+            kind_m = closure_kind(m) if m.d['kind'] == 'Closure' else None
+            if kind_m in ('source', 'name'):
+                side = 'outer' if m.d.get('parent') == root.path else 'inner'
+                for pt, t in m.calls():
+                    c = t.get('callee')
+                    if c and c['name'] == 'insert' and len(t['args']) == 3:
+                        side_of.setdefault(org.table_root(m.expr_of_operand(t['args'][0])), set()).add((side, kind_m))
+        for m in members:
+            for pt, t in m.calls():
+                c = t.get('callee')
+                hb = f.body(c.get('resolved') or c['path']) if c else None
+                if hb is None or hb.d['kind'] == 'Closure' or c['name'] in ('get', 'get_mut', 'insert', 'clear', 'new', 'default'):
+                    continue
+                tabs = [(a, side_of[org.table_root(m.expr_of_operand(a))]) for a in t['args']
+                        if org.table_root(m.expr_of_operand(a)) in side_of]
+                if len(tabs) < 2:
+                    continue
+                common = set.intersection(*[{sd for sd, _ in sides} for _, sides in tabs])
+                ok = bool(common)
+                r.site('%s: tables passed to `%s` belong to the same child stream' % (m.path, c['name']), t['s'], 'ok' if ok else 'violation')
+                if not ok:
+                    r.violation('%s:sides' % root.path, t['s'], m.path,
+                                'a helper is called with an index table of one child stream (%s) together with a table of the other: '
+                                'indices of one map are looked up / memoised in the tables of the other' % [sorted(x) for _, x in tabs])
+        # KEYSPACE: an integer-keyed translation table is keyed in ONE numbering: keys of the child's numbering (LOCAL / RAW) and keys
+        # of the announced numbering (GLOBAL) must never meet in the same table
+        by_table = {}
+        for m in members:
+            for pt, t in m.calls():
+                c = t.get('callee')
+                if not c or c['name'] not in ('get', 'get_mut', 'insert') or len(t['args']) < 2 or t['arg_tys'][1] not in ('u32', '&u32', 'usize', '&usize'):
+                    continue
+                root_t = org.table_root(m.expr_of_operand(t['args'][0]))
+                if root_t is None:
+                    continue
+                ko = org.origin(m.expr_of_operand(t['args'][1])) - {'CONST'}
+                by_table.setdefault(root_t, []).append((m, t, ko))
+        for root_t, uses in by_table.items():
+            allk = set()
+            for m, t, ko in uses:
+                allk |= ko
+            mixed = 'GLOBAL' in allk and (allk & {'LOCAL', 'RAW', 'LOCAL?'})
+            for m, t, ko in uses:
+                bad = mixed and 'GLOBAL' in ko
+                r.site('%s: table key of `%s` has origin %s' % (m.path, t['callee']['name'], sorted(ko) or ['CONST']), t['s'],
+                       'violation' if bad else 'ok')
+                if bad:
+                    r.violation('%s:keyspace' % root.path, t['s'], m.path,
+                                'an index translation table that is otherwise keyed by the child\'s indices is accessed with a key of the '
+                                'announced (global) numbering: the memoised translation lands in the wrong slot and poisons another entry')
     r.check_floor()
     return r
 
@@ -950,6 +1004,14 @@ def rule_namecheck(ctx):
                 ne = m.expr_of_operand(ops['name_index'])
                 lookups = [x for x in walk(ne) if x[0] == 'call' and x[1].rsplit('::', 1)[-1] == 'get' and x[2]
                            and org.table_root(x[2][0]) in outer_tables and isinstance(x[3], tuple)]
+                # a crate-local helper that receives an outer-name table performs the lookup on our behalf: the call site counts
+                for pt2, t2 in m.calls():
+                    c2 = t2.get('callee')
+                    hb2 = f.body(c2.get('resolved') or c2['path']) if c2 else None
+                    if hb2 is not None and hb2.d['kind'] != 'Closure' and c2['name'] not in ('get', 'get_mut', 'insert') and \
+                            any(org.table_root(m.expr_of_operand(a)) in outer_tables for a in t2['args']) and \
+                            any(y[0] == 'call' and y[3] == pt2 and y[1] == c2['path'] for y in walk(ne)):
+                        lookups.append(('call', c2['path'], (), pt2))
                 seen = set()
                 for x in lookups:
                     gpt = x[3]
@@ -980,5 +1042,138 @@ def rule_namecheck(ctx):
                         r.violation('%s:outer-name' % root.path, site, m.path,
                                     'an outer name index can reach the name of an inner-mapped segment without the comparison of that name '
                                     'with the original text: a name is attached to original text that differs from it')
+    r.check_floor()
+    return r
+
+
+# ---------------------------------------------------------------------------------- ENC-FIRST-MAPPED (C12) and LOCKSCOPE (C18)
+
+def rule_enc_first_mapped(ctx):
+    from .codec import find_buffers
+    f = ctx.facts()
+    r = RuleResult('ENC-FIRST-MAPPED', 'the line-only encoder keeps the first *mapped* segment of each line: it records a line as written '
+                                       '(any state it derives from the segment\'s generated line) only for segments that have an original')
+    r.floor = 1
+    mp = anchors.adt_by_name(f, 'Mapping')['path']
+    for (adt, fld), lst in find_buffers(f).items():
+        if adt is None:
+            continue
+        encs = [m for m in f.body_list if m.promoted is None and m.d['kind'] != 'Closure' and m.d.get('impl_adt') == adt
+                and m.arg_count == 2 and 'Mapping' in m.local_ty(2)]
+        for m in encs:
+            grp = group_of(f, m)
+            reads_col = any(isinstance(x, dict) and x.get('o') == mp and x.get('n') == 'generated_column'
+                            for g in grp for _, _, pl, _ in g.places() for x in pl['pr'])
+            if reads_col:
+                continue  # the full (column) encoder
+            for g in grp:
+                for pt, s in g.points():
+                    if s['k'] != 'assign' or s['r']['k'] != 'use' or not s['p']['pr']:
+                        continue
+                    last = s['p']['pr'][-1]
+                    if not (isinstance(last, dict) and last.get('o') == adt):
+                        continue
+                    e = g.expr_of_operand(s['r']['o'])
+                    roots = _mapping_roots(g, e, 'generated_line', mp)
+                    if not roots:
+                        continue
+                    ok = _original_some_edge(g, pt, roots, mp)
+                    r.site('%s: state `%s` taken from the segment\'s line only for mapped segments' % (g.path, last.get('n')), s['s'],
+                           'ok' if ok else 'violation')
+                    if not ok:
+                        r.violation('%s:%s' % (m.path, last.get('n')), s['s'], g.path,
+                                    'the line-only encoder updates `%s` from a segment\'s generated line before establishing that the segment '
+                                    'has an original: an unmapped chunk at the start of a line makes it drop the line\'s first mapped segment'
+                                    % last.get('n'))
+    r.check_floor()
+    return r
+
+
+def rule_lockscope(ctx):
+    f = ctx.facts()
+    r = RuleResult('LOCKSCOPE', 'the mutex guarding ReplaceSource\'s sorted index is never held across a call into a child source or a '
+                                'caller-supplied callback: while the guard is live only std calls run, so no lock-order cycle through user '
+                                'code can form and other observers are not blocked for the length of a stream')
+    r.floor = 1
+    R = anchors.replace_source(f)
+    for b in f.body_list:
+        if b.promoted is not None:
+            continue
+        for pt, t in b.calls():
+            c = t.get('callee')
+            if not (c and c['name'] == 'lock' and t['args']):
+                continue
+            e = b.expr_of_operand(t['args'][0])
+            if not any(x[0] == 'field' and x[2] == R['sorted_index'] and x[3] == R['adt'] for x in walk(e)):
+                continue
+            # guard locals: the lock result and what it is unwrapped / moved into
+            guards = {t['dest']['l']}
+            changed = True
+            while changed:
+                changed = False
+                for pt2, s2 in b.points():
+                    if s2['k'] == 'call' and s2.get('callee') and s2['callee']['name'] in ('unwrap', 'expect', 'unwrap_or_else', 'into_inner') \
+                            and s2['args'] and s2['args'][0]['k'] in ('move', 'copy') and s2['args'][0]['p']['l'] in guards \
+                            and s2['dest']['l'] not in guards:
+                        guards.add(s2['dest']['l'])
+                        changed = True
+                    if s2['k'] == 'assign' and s2['r']['k'] == 'use' and s2['r']['o']['k'] == 'move' and \
+                            s2['r']['o']['p']['l'] in guards and not s2['p']['pr'] and s2['p']['l'] not in guards:
+                        guards.add(s2['p']['l'])
+                        changed = True
+            escapes = 0 in guards
+            # live region: blocks reachable from the lock until a drop of a guard local
+            drops = {p2[0] for p2, s2 in b.points() if s2['k'] == 'drop' and s2['p']['l'] in guards and not s2['p']['pr']}
+            region, st = set(), [pt[0]]
+            while st:
+                x = st.pop()
+                if x in region:
+                    continue
+                region.add(x)
+                if x in drops and x != pt[0]:
+                    continue
+                st.extend(b.succs(x))
+            bad = []
+            st_tr = anchors.trait_path(f, 'StreamChunks')
+            src_tr = anchors.trait_path(f, 'Source')
+            for pt2, t2 in b.calls():
+                if pt2[0] not in region or pt2 == pt:
+                    continue
+                c2 = t2.get('callee')
+                if c2 is None:
+                    bad.append((t2['s'], 'indirect call'))
+                elif c2.get('trait') in (st_tr, src_tr) or c2.get('impl_trait') in (st_tr, src_tr):
+                    bad.append((t2['s'], 'call into a source (`%s`)' % c2['path']))
+                elif c2['name'] in ('call', 'call_mut', 'call_once') and t2['arg_tys'] and 'dyn' in t2['arg_tys'][0]:
+                    bad.append((t2['s'], 'caller-supplied callback'))
+            if escapes:
+                # the guard is returned: every caller holds it; they are checked as if they had locked themselves
+                for cb in f.body_list:
+                    for cpt, ct in cb.calls():
+                        cc = ct.get('callee')
+                        if cc and (cc.get('resolved') or cc['path']) == b.key:
+                            gl = ct['dest']['l']
+                            live = [p2 for p2, s2 in cb.points() if s2['k'] == 'drop' and s2['p']['l'] == gl and not s2['p']['pr']]
+                            region2, st2 = set(), [cpt[0]]
+                            dr = {p2[0] for p2 in live}
+                            while st2:
+                                x = st2.pop()
+                                if x in region2:
+                                    continue
+                                region2.add(x)
+                                if x in dr and x != cpt[0]:
+                                    continue
+                                st2.extend(cb.succs(x))
+                            for pt3, t3 in cb.calls():
+                                c3 = t3.get('callee')
+                                if pt3[0] in region2 and pt3 != cpt and c3 and \
+                                        (c3.get('trait') in (st_tr, src_tr) or c3.get('impl_trait') in (st_tr, src_tr)):
+                                    bad.append((t3['s'], 'guard returned to %s, held across `%s`' % (cb.path, c3['path'])))
+            ok = not bad
+            r.site('%s: sorted-index guard is held over std calls only' % b.path, t['s'], 'ok' if ok else 'violation')
+            for site, why in bad[:3]:
+                r.violation('%s:held-across' % b.path, site, b.path,
+                            'the sorted-index mutex is held across %s: other observers of the same source block for the whole stream, and a child '
+                            'that synchronises with them deadlocks' % why)
     r.check_floor()
     return r
